@@ -468,7 +468,12 @@ class WebSocketApp:
                         or has_pong_arrived_too_late
                     )
                 ):
-                    raise WebSocketTimeoutException("ping/pong timed out")
+                    e = WebSocketTimeoutException("ping/pong timed out")
+                    if custom_dispatcher:
+                        # the external dispatcher calls check() from its own loop:
+                        # handle the loss here like read() does
+                        return closed(e)
+                    raise e
             return True
 
         def closed(
